@@ -151,6 +151,10 @@ func SpanAt(spans []Span, off int) (Span, bool) {
 	return Span{}, false
 }
 
+// maxZeroWidthCount bounds the count of a list or map of zero-width entries
+// the model agrees to decode (16 times the documented cap of 4096 entries).
+const maxZeroWidthCount = 1 << 16
+
 type dec struct {
 	b   []byte
 	pos int
@@ -222,7 +226,11 @@ func (r *dec) datum(t *Type) (*Datum, error) {
 		if err != nil {
 			return nil, err
 		}
-		if n > uint64(len(r.b)) {
+		// a count the input cannot hold is refused before looping - unless
+		// the entries occupy no byte ([()], [v], {vv}...): then the count is
+		// all there is, and it is bounded by a constant instead
+		zero := t.Elem.ZeroWidth() && (t.Kind == List || t.Key.ZeroWidth())
+		if (!zero && n > uint64(len(r.b))) || (zero && n > maxZeroWidthCount) {
 			return nil, fmt.Errorf("count %d larger than the input", n)
 		}
 		for i := 0; i < int(n); i++ {
